@@ -853,6 +853,8 @@ class IncludeNode(DirectiveNode):
         if not include_file:
             filename = kwargs["filename"]
             line = self.start_line
+            if getattr(self, "lines", None):
+                line = min(self.lines)
             spelling = self.spelling()[0]
             kind = "system include" if is_system_include else "user include"
             log.warning(
